@@ -48,6 +48,13 @@ def build_repo(path, script):
         elif op == "merge":
             git(path, "merge", "-q", "--no-ff", "-m", "merge " + st[1], st[1], ts=st[2])
             commits.append(git(path, "rev-parse", "HEAD"))
+        elif op == "commitfile":                 # a commit adding a file with a given name (e.g. named exactly like a tag)
+            n += 1
+            with open(os.path.join(path, st[1]), "w") as f:
+                f.write(str(n))
+            git(path, "add", "-A")
+            git(path, "commit", "-q", "-m", f"c{n}", ts=st[2])
+            commits.append(git(path, "rev-parse", "HEAD"))
         elif op == "branchat":                   # a branch created without checking it out (e.g. named like an existing tag)
             git(path, "branch", st[1])
         elif op == "detach":
@@ -55,6 +62,8 @@ def build_repo(path, script):
         elif op == "dirty":
             if st[1] == "untracked":
                 open(os.path.join(path, "untracked.txt"), "w").write("u")
+            elif st[1] == "untracked_named":       # an untracked file with a given name (e.g. named exactly like a tag)
+                open(os.path.join(path, st[2]), "w").write("u")
             elif st[1] == "modified":
                 open(os.path.join(path, "f1.txt"), "a").write("m")
             elif st[1] == "index_only_mod":        # the index differs from HEAD while the work tree equals HEAD again (status MM)
